@@ -62,7 +62,7 @@ def _var_items(v):
     return v.name, v.star, ivs
 
 
-def compile_expr(expr, card, qfactor_salt=0, bind_false=True):
+def compile_expr(expr, card, qfactor_salt=0, bind_false=True, literal_names=frozenset()):
     """Return (fn(env, world) -> Fraction, free) where free is the set of (name, star) keys read from env."""
     free = set()
 
@@ -131,17 +131,19 @@ def compile_expr(expr, card, qfactor_salt=0, bind_false=True):
                     raise Malformed(f"sum range {r!r} is not a plain variable")
                 if r.name not in card:
                     raise Malformed(f"sum over {r.name} which is not a node of the model")
-            inner_bound = bound | {(n, None) for n in names} | ({(n, False) for n in names} if bind_false else set())
+            # names in literal_names keep their -N subscripts literal (query variables); others are bound together with N
+            bf = [n for n in names if bind_false and n not in literal_names]
+            inner_bound = bound | {(n, None) for n in names} | {(n, False) for n in bf}
             f = comp(e.expression, inner_bound)
             doms = [range(card[n]) for n in names]
 
-            def f_sum(env, world, f=f, names=names, doms=doms):
+            def f_sum(env, world, f=f, names=names, doms=doms, bf=frozenset(bf)):
                 env2 = dict(env)
                 r = ZERO
                 for vals in itt.product(*doms):
                     for n, v in zip(names, vals):
                         env2[(n, None)] = v
-                        if bind_false:
+                        if n in bf:
                             env2[(n, False)] = v
                     r += f(env2, world)
                 return r
